@@ -1067,13 +1067,19 @@ func (vc *VC) evalAppend(st *State, call *ast.CallExpr) *Value {
 		}
 		// new backing array: prefix copied from s, then the tail
 		srcS := func(i string) string { return sel2(h0, s.Arr, app("+", s.Off, i)) }
-		vc.rowUpdate(st, comp, sort, arr, func(i, nc, oc string) string {
+		vc.rowUpdatePat(st, comp, sort, arr, func(i, nc, oc string) string {
 			f := smtImp(smtAnd(app("<=", "0", i), app("<", i, s.Len)), smtEq(nc, srcS(i)))
 			if tail != nil {
 				tsrc := sel2(h0, tail.Arr, app("+", tail.Off, app("-", i, s.Len)))
 				f = smtAnd(f, smtImp(smtAnd(app("<=", s.Len, i), app("<", i, res.Len)), smtEq(nc, tsrc)))
 			}
 			return f
+		}, func(i string) string {
+			// what is known about an element of the old slice carries over to its copy
+			if s.Arr == "0" {
+				return ""
+			}
+			return srcS(i)
 		})
 	})
 	// explicit elements
